@@ -898,6 +898,10 @@ class NF:
                 continue
             if k == "MethodCall" and body["name"] == "push" and self._mutations(lid, [body]):
                 return self.nf(body["args"][0], cur_env), conditional
+            if k == "MethodCall" and body["name"] == "insert" and len(body["args"]) == 2 and self._mutations(lid, [body]) \
+                    and "Map<" in (str(H.strip(body["recv"]).get("ty") or "") + str(H.strip(body["recv"]).get("adj_ty") or "")):
+                # `map.insert(key, value)` in a loop: the map is the list of the pairs (as `collect` of pairs would be)
+                return ("tuple", (self.nf(body["args"][0], cur_env), self.nf(body["args"][1], cur_env))), conditional
             if k == "MethodCall" and body["name"] == "extend" and len(body["args"]) == 1 and self._mutations(lid, [body]) \
                     and str(H.strip(body["args"][0]).get("ty") or "").replace("&", "").strip().startswith("std::option::Option<"):
                 # `v.extend(opt)`: what the Option holds is pushed, when it holds something
@@ -1024,6 +1028,9 @@ class NF:
         lid = pat["id"]
         if init[0] == "call" and str(init[1]).endswith(("Vec::<T>::new", "vec::Vec::<T>::new")):
             init = ("list", ())
+        if init[0] == "call" and not init[2] and str(init[1]).rsplit("::", 1)[-1] in ("new", "default") and any(
+                w in (H.strip(pat).get("ty") or "") for w in ("OrderedMap<", "BTreeMap<", "HashMap<", "Vec<", "BTreeSet<")):
+            init = ("list", ())       # an empty map / list of the crate or of std, filled below
         is_string = (H.strip(pat).get("ty") or "").replace(" ", "") in ("std::string::String", "String", "alloc::string::String")
         if init[0] == "call" and str(init[1]).endswith(("String::new", "string::String::new")) and not init[2]:
             sb = self._string_builder(pat, rest, env)
